@@ -3,5 +3,6 @@ CONSTANTS
   Seed = 1
 INVARIANT T_Tracks
 INVARIANT T_Symmetric
+INVARIANT T_Precision
 INVARIANT EmitC
 CHECK_DEADLOCK FALSE
